@@ -1,4 +1,4 @@
-import H2.Proofs.StreamSMRefine
+import H2.Proofs.StreamSMRefine.By
 import H2.Proofs.StreamSM
 /-!
 # C08 — the server reacts to each frame as its stream's RFC 7540 state prescribes
@@ -199,5 +199,127 @@ example : FrWF exData ∧ exData.stream % 2 = 1 ∧ lookup exSrv exData.stream =
 
 example : fullRC (slStreamFrame { s := exSrv } exData).out 1 = .dispatch ∧
     absPos (slStreamFrame { s := exSrv } exData).s 1 = .tab .halfClosed true true true := by decide +kernel
+
+end H2.Props.C08
+/-! ## second appended section for `lean/H2/Props/C08.lean` (round r08, part 2)
+
+Needs this import at the head of `H2/Props/C08.lean` (it replaces `import H2.Proofs.StreamSMRefine`, which it imports):
+
+    import H2.Proofs.StreamSMRefine.By
+
+**The lockstep comparison of `H2.Server.Lock.StreamSM.checkFrame` as a theorem, for every frame type**: HEADERS opening a
+stream, continued blocks (CONTINUATION), trailers with and without END_STREAM (F67's repaired behaviour), END_STREAM →
+dispatch, the block classes the adapter computes with `walkFrame` (`Blk`), the read loop's own checks (CONTINUATION
+sequencing, even id, PING / PUSH_PROMISE with a stream id), the unknown-stream branch, DATA / RST_STREAM / PRIORITY /
+WINDOW_UPDATE. `SInv s` is the invariant; `resume st = false` (no response data waiting for window on the frame's stream)
+stays a hypothesis: the outputs of a resumed response are what the adapter now treats separately.
+-/
+namespace H2.Props.C08
+open H2.Server H2.Server.Lock H2.Server.Lock.Refine
+open H2.Frame (Frame)
+open H2 (Bytes)
+
+/-- **Step refinement, per frame, full model against `StreamSM.react`** (the two comparisons of the lockstep adapter):
+for every state `s` with `SInv s` whose stream loop runs, every parsed frame (`FrWF`: what `readFrame` returns,
+`full_parsed_frames_wf`) with a stream id: the reaction string of the abstract model on `absPos` / `absFrame` / `absCtx`
+equals the string read off the full model's outputs for that frame, and unless the reaction is a connection error the
+abstract next place is `absPos` of the state after the frame. -/
+theorem full_frame_refines (s : Srv) (fr : Frame) (hI : SInv s) (hwf : FrWF fr) (h0 : fr.stream ≠ 0)
+    (hsl : s.slStopped = false) (hnr : ∀ st, lookup s fr.stream = some st → resume st = false) :
+    let rp := H2.Server.StreamSM.react (absPos s fr.stream) (absFrame s fr) (absCtx s fr.stream (some fr))
+    absReaction rp.1 = fullReaction (rlFrame { s := s } fr).out fr.stream ∧
+    (isConn rp.1 = false → absPos (rlFrame { s := s } fr).s fr.stream = rp.2) :=
+  frame_refines s fr hI hwf h0 hsl hnr
+
+/-- the same at the stream loop (`slStreamFrame`), for any outputs-free `R` -/
+theorem full_stream_loop_refines (r : R) (fr : Frame) (hI : SInv r.s) (hwf : FrWF fr) (hodd : fr.stream % 2 = 1)
+    (hout : r.out = []) (hnr : ∀ st, lookup r.s fr.stream = some st → resume st = false) :
+    let rp := reactSL (absPos r.s fr.stream) (absFrame r.s fr) (absCtx r.s fr.stream (some fr))
+    absReaction rp.1 = fullReaction (slStreamFrame r fr).out fr.stream ∧
+    (isConn rp.1 = false → absPos (slStreamFrame r fr).s fr.stream = rp.2) :=
+  sl_refines r fr hI hwf hodd hout hnr
+
+/-- the block class of the adapter IS the field loop's verdict: `walk` (HPACK model + C20 model `Msg.field`) against the
+full model's `fieldLoop` -/
+theorem full_walk_is_fieldLoop (fuel : Nat) (s : Srv) (st : Strm) (bs eh : Bool) (fp : Nat) (b : Bytes)
+    (acc : List H2.Server.MsgSpec.Field) (hcl : 0 ≤ st.contentLength) :
+    (fieldLoop fuel s st bs eh fp b).2.2.map errRC = blkRC (absBlk false (walk (msgCfg s) fuel s.dec (msgSt st) bs eh fp b acc)) ∧
+    ((fieldLoop fuel s st bs eh fp b).2.2 = none →
+      (walk (msgCfg s) fuel s.dec (msgSt st) bs eh fp b acc).1.isOk = true ∧
+      (walk (msgCfg s) fuel s.dec (msgSt st) bs eh fp b acc).2.1 = msgSt (fieldLoop fuel s st bs eh fp b).2.1) :=
+  walk_fieldLoop fuel s st bs eh fp b acc hcl
+
+/-- **in every reachable state**: each stream of the table has `0 ≤ contentLength` and is never `reserved` -/
+theorem full_reachable_streams_ok (cfg : Cfg) (evs : List Event) :
+    ∀ st ∈ (run cfg evs).1.strms, 0 ≤ st.contentLength ∧ st.state ≠ .reserved :=
+  run_pq cfg evs
+
+/-- **in every reachable state in which no GOAWAY has been written** no stream of the table is idle or closed, and no id of
+the table is in `resetByUs` (so: the places `tab idle …` / `tab closed …`, which the simulation relation of this file relates
+to nothing, do not occur between frames) -/
+theorem full_reachable_live (cfg : Cfg) (evs : List Event) (hc : (run cfg evs).1.closing = false) :
+    ∀ st ∈ (run cfg evs).1.strms, st.state ≠ .idle ∧ st.state ≠ .closed ∧ (run cfg evs).1.resetByUs.contains st.id = false :=
+  reachable_live cfg evs hc
+
+/-- the invariant of `full_frame_refines` holds in every reachable state before the first GOAWAY -/
+theorem full_reachable_sinv (cfg : Cfg) (evs : List Event) (ib : Bytes) (hc : (run cfg evs).1.closing = false) :
+    SInv { (run cfg evs).1 with inbuf := ib } :=
+  reachable_sinv' cfg evs ib hc
+
+/-- **Step refinement in every reachable state, up to the first connection error.** After ANY event list, as long as no GOAWAY
+has been written and the stream loop runs, for the next parsed frame with a stream id (`ib`: whatever else is in the read
+buffer): the two comparisons of the lockstep adapter hold. The one side condition left: the frame's stream, if it is in the
+table, has no response data waiting for flow-control window (`resume`; such a frame also makes DATA / RST_STREAM(INTERNAL_ERROR)
+of the response go out, which the adapter now reads separately). -/
+theorem full_frame_refines_reachable (cfg : Cfg) (evs : List Event) (ib : Bytes) (fr : Frame) (hwf : FrWF fr) (h0 : fr.stream ≠ 0)
+    (hsl : (run cfg evs).1.slStopped = false) (hc : (run cfg evs).1.closing = false)
+    (hnr : ∀ st, lookup (run cfg evs).1 fr.stream = some st → resume st = false) :
+    let s : Srv := { (run cfg evs).1 with inbuf := ib }
+    let rp := H2.Server.StreamSM.react (absPos s fr.stream) (absFrame s fr) (absCtx s fr.stream (some fr))
+    absReaction rp.1 = fullReaction (rlFrame { s := s } fr).out fr.stream ∧
+    (isConn rp.1 = false → absPos (rlFrame { s := s } fr).s fr.stream = rp.2) :=
+  reachable_frame_refines' cfg evs ib fr hwf h0 hsl hc hnr
+
+/-- **Bystanders, per frame** (goal 2): a frame on stream `fr.stream` moves the place of ANY other id `b` only as the
+environment events of `StreamSM` do (`newer`, `higherRefused`, `evictRing`, `forgetReset`) — the adapter's `envReach`, which
+the lockstep run checks for three watched ids, holds for every id, unless the frame is answered with a GOAWAY. `Inv` is the
+invariant of `H2.Proofs.ServerOnce` (one table entry per stream object / per id), which holds in every reachable state. -/
+theorem full_bystander_frame {D H E : List Nat} (s : Srv) (fr : Frame) (hi : Inv D H E { s := s }) (hI : SInv s) (h0 : fr.stream ≠ 0)
+    (hsl : s.slStopped = false) (hc : (rlFrame { s := s } fr).s.closing = false) (b : Nat) (hb : b ≠ fr.stream) :
+    envReach (absPos s b) (absPos (rlFrame { s := s } fr).s b) = true :=
+  bystander_frame s fr hi hI h0 hsl hc b hb
+
+/-- the same in every reachable state before the first GOAWAY, no side condition left -/
+theorem full_bystander_reachable (cfg : Cfg) (evs : List Event) (ib : Bytes) (fr : Frame) (h0 : fr.stream ≠ 0)
+    (hsl : (run cfg evs).1.slStopped = false) (hc0 : (run cfg evs).1.closing = false)
+    (hc : (rlFrame { s := { (run cfg evs).1 with inbuf := ib } } fr).s.closing = false) (b : Nat) (hb : b ≠ fr.stream) :
+    envReach (absPos { (run cfg evs).1 with inbuf := ib } b)
+      (absPos (rlFrame { s := { (run cfg evs).1 with inbuf := ib } } fr).s b) = true :=
+  reachable_bystander cfg evs ib fr h0 hsl hc0 hc b hb
+
+/-! ### non-vacuity -/
+
+example : SInv ({} : Srv) :=
+  ⟨List.nodup_nil, List.nodup_nil, fun _ h => (List.not_mem_nil h).elim, fun _ h => (List.not_mem_nil h).elim,
+   fun _ h => (List.not_mem_nil h).elim, fun _ h => (List.not_mem_nil h).elim, fun _ h => (List.not_mem_nil h).elim⟩
+
+/-- a whole GET request in one HEADERS frame (END_STREAM | END_HEADERS) on a fresh connection: opens stream 1 and is dispatched -/
+def exHdrs : Frame := ⟨1, 5, 1, 3, .headers true true none [0x82, 0x86, 0x84]⟩
+/-- the same without END_HEADERS: the stream opens, its block stays open -/
+def exHdrsOpen : Frame := ⟨1, 1, 1, 3, .headers true false none [0x82, 0x86, 0x84]⟩
+
+example : FrWF exHdrs ∧ FrWF exHdrsOpen := ⟨⟨rfl, rfl, rfl⟩, ⟨rfl, rfl, rfl⟩⟩
+
+example : fullRC (rlFrame { s := {} } exHdrs).out 1 = .dispatch ∧
+    absPos (rlFrame { s := {} } exHdrs).s 1 = .tab .halfClosed true true true := by decide +kernel
+
+example : fullRC (rlFrame { s := {} } exHdrsOpen).out 1 = .ok ∧
+    absPos (rlFrame { s := {} } exHdrsOpen).s 1 = .tab .halfClosed false false false ∧
+    (rlFrame { s := {} } exHdrsOpen).s.expectCont = 1 := by decide +kernel
+
+/-- HEADERS opening stream 3 on a connection where stream 1 is open: the place of id 1 is untouched, id 5 stays fresh, and
+the adapter's `envReach` relates the places of id 1 before and after (it was the newest stream, now it is not) -/
+example : envReach (absPos exSrv 5) (absPos (rlFrame { s := exSrv } ⟨1, 5, 3, 3, .headers true true none [0x82, 0x86, 0x84]⟩).s 5) = true ∧
+    (rlFrame { s := exSrv } ⟨1, 5, 3, 3, .headers true true none [0x82, 0x86, 0x84]⟩).s.closing = false := by decide +kernel
 
 end H2.Props.C08
